@@ -63,6 +63,117 @@ func init() {
 	})
 }
 
+func init() {
+	register(&Rule{
+		ID: "CL-7",
+		Doc: "Wake-ups are delivered: a wake-up channel of the collection (a chan field that some function closes: waitDirtyIncomingCh, waitDirtyOutgoingCh) that is taken out of its field " +
+			"(the field is overwritten with nil) has been picked up into a local first, and every path from the overwrite to a return of the function or to the next round of its loop " +
+			"closes that local, except where the local is nil. A waker that drops the channel on some path (a failed persister round) leaves the waiter asleep for good.",
+		Props: []string{"C16", "C13"},
+		Floor: 1,
+		Run:   ruleCL7,
+	})
+}
+
+func isCloseBuiltin(i ssa.Instruction) (ssa.Value, bool) {
+	call, ok := i.(*ssa.Call)
+	if !ok {
+		return nil, false
+	}
+	if b, ok := call.Call.Value.(*ssa.Builtin); ok && b.Name() == "close" && len(call.Call.Args) == 1 {
+		return call.Call.Args[0], true
+	}
+	return nil, false
+}
+
+func ruleCL7(c *Ctx) []*Ob {
+	o := newObs(c, "CL-7")
+	// wake-up channel fields: chan-typed fields of collection closed somewhere
+	wake := map[*types.Var]bool{}
+	for _, f := range c.Funcs {
+		eachInstr(f, func(i ssa.Instruction) {
+			if arg, ok := isCloseBuiltin(i); ok {
+				for _, og := range origins(arg) {
+					if fv, _ := loadedField(og); fv != nil && c.FieldOwner(fv) == "collection" {
+						wake[fv] = true
+					}
+				}
+			}
+		})
+	}
+	fStop := c.Field("collection", "stopCh")
+	delete(wake, fStop)
+	if len(wake) == 0 {
+		o.add("-", "wake-up channels", "-", false, "anchor lost: no channel field of collection is closed anywhere")
+		return o.list
+	}
+	for _, f := range c.Funcs {
+		if c.isHarness(f) {
+			continue
+		}
+		fn := c.fname(f)
+		for _, a := range fieldAccesses(f, func(v *types.Var) bool { return wake[v] }) {
+			if a.Kind != "store" || !isNilConst(a.Val) || isFreshAlloc(a.Base) {
+				continue
+			}
+			construct := "take " + a.Field.Name()
+			// loads of the field (same base) that can reach the store
+			baseKey := canonKey(a.Base)
+			var loads []ssa.Value
+			for _, l := range fieldAccesses(f, func(v *types.Var) bool { return v == a.Field }) {
+				if l.Kind == "load" && canonKey(l.Base) == baseKey {
+					if v, ok := l.Instr.(ssa.Value); ok {
+						loads = append(loads, v)
+					}
+				}
+			}
+			isLoad := func(i ssa.Instruction) bool {
+				for _, l := range loads {
+					if l.(ssa.Instruction) == i {
+						return true
+					}
+				}
+				return false
+			}
+			if !mustPrecede(f, a.Instr, isLoad, nil) {
+				o.add(fn, construct, c.instrPos(a.Instr), false, "the field is cleared on a path that never read it: whoever waits on the channel is never woken")
+				continue
+			}
+			bad := ""
+			walk(after(a.Instr), walkOpts{
+				seed:     loads,
+				noInline: true,
+				visit: func(i ssa.Instruction, t *tracker) bool {
+					if bad != "" {
+						return true
+					}
+					if arg, ok := isCloseBuiltin(i); ok && t.vals[arg] {
+						return true // woken on this path
+					}
+					if _, ok := i.(*ssa.Return); ok && i.Parent() == f {
+						bad = "a path from the take reaches the return at " + c.instrPos(i) + " without closing the channel"
+						return true
+					}
+					if i == a.Instr {
+						bad = "a path from the take comes round to the take again (next loop round) without closing the channel taken before"
+						return true
+					}
+					return false
+				},
+				edge: func(from, to *ssa.BasicBlock, label string, cond ssa.Value, onTrue bool, t *tracker) bool {
+					return bad != "" || label == "nil"
+				},
+			})
+			if bad == "" {
+				o.add(fn, construct, c.instrPos(a.Instr), true, "every path from the take closes the channel taken (or the channel was nil)")
+			} else {
+				o.add(fn, construct, c.instrPos(a.Instr), false, bad+": the waiter (merger / writer throttle) stays asleep although the work it waits for was done")
+			}
+		}
+	}
+	return o.list
+}
+
 func isCallOf(i ssa.Instruction, f *ssa.Function) bool {
 	ci, ok := i.(ssa.CallInstruction)
 	return ok && ci.Common().StaticCallee() == f
